@@ -2,6 +2,8 @@ package sx
 
 import (
 	"bufio"
+	"os"
+	"runtime"
 	"fmt"
 	"io"
 	"os/exec"
@@ -126,7 +128,27 @@ func (s *Solver) Assert(t *Term) {
 }
 
 // Check decides the current assertion stack plus extra (if non-nil).
+var QueryProfile map[string]int
+
 func (s *Solver) Check(extra *Term, wantModel bool, timeoutMs int) (string, map[string]uint64) {
+	if QueryProfile != nil {
+		var pcs [6]uintptr
+		n := runtime.Callers(2, pcs[:])
+		frames := runtime.CallersFrames(pcs[:n])
+		key := ""
+		for k := 0; k < 4; k++ {
+			f, more := frames.Next()
+			name := f.Function
+			if i := strings.LastIndex(name, "."); i >= 0 {
+				name = name[i+1:]
+			}
+			key += name + "<"
+			if !more {
+				break
+			}
+		}
+		QueryProfile[key]++
+	}
 	t0 := time.Now()
 	defer func() { s.Time += time.Since(t0) }()
 	s.Queries++
@@ -225,6 +247,13 @@ func (s *Solver) CheckOneShot(asserts []*Term, wantModel bool, timeoutMs int) (s
 	t0 := time.Now()
 	defer func() { s.Time += time.Since(t0) }()
 	s.Queries++
+	var capture strings.Builder
+	dumpDir := os.Getenv("GOSYM_DUMP_UNKNOWN")
+	if dumpDir != "" {
+		prev := s.Log
+		s.Log = &capture
+		defer func() { s.Log = prev }()
+	}
 	s.send("(reset)\n")
 	s.P = NewPrinter()
 	if timeoutMs > 0 {
@@ -244,6 +273,9 @@ func (s *Solver) CheckOneShot(asserts []*Term, wantModel bool, timeoutMs int) (s
 	}
 	if d := time.Since(t0); d > 2*time.Second && s.Slow != nil {
 		s.Slow(d, res)
+	}
+	if dumpDir != "" && res != "sat" && res != "unsat" {
+		os.WriteFile(fmt.Sprintf("%s/unknown-%d-%d.smt2", dumpDir, os.Getpid(), s.Queries), []byte(capture.String()), 0o644)
 	}
 	switch res {
 	case "sat":
